@@ -128,8 +128,9 @@ impl<T: Alignment> Write for AlignedCursor<T> {
         }
 
         let cap = self.vec.len().saturating_mul(std::mem::size_of::<T>());
-        let rem = cap - self.pos;
-        if rem < len {
+        // Grow (zero-filling the gap) whenever the write ends beyond the
+        // current capacity, also when the position itself is beyond it.
+        if self.pos + len > cap {
             self.vec.resize(
                 (self.pos + len).div_ceil(std::mem::size_of::<T>()),
                 T::default(),
